@@ -448,3 +448,60 @@ def horosphere_arcs_per_unit(tier, rng, rep):
                 rep.case(key=(t, model, deg), nontrivial=m >= 2, sample=inp if (t, model, deg) == (1, "poincare", False) else None)
                 if len(rep.failures) >= 3:
                     return
+
+
+@bounded(P, "composites_of_mixed_scale", functions=["geometry_tools/utils/numerical.py:svd_kernel", U + "kernel", U + "orthogonal_complement", HY + "Subspace.reflection_across",
+                                                     HY + "Subspace.spacelike_complement", HY + "Hyperplane.__init__"],
+         note="composites whose units carry homogeneous representatives of very different length (1e-6 .. 1e9): reflection across, spacelike complement and the hyperplane constructor "
+              "return at each index what the unit object at that index returns (the rank decision of the kernel routine is per unit)")
+def composites_of_mixed_scale(tier, rng, rep):
+    N = 60 if tier == 'thorough' else 15
+    rep.rule = "composites of 2..4 geodesics (n = 2, 3) / hyperplanes given by normals (n = 2, 3), unit scales drawn from {1e-6, 1e-3, 1, 1e4, 1e9}; reflection_across and spacelike_complement against the units"
+    rep.bound = f"{N} composites x 2 kinds"
+    for t in range(N):
+        n = 2 + t % 2
+        k = int(rng.integers(2, 5))
+        sc = rng.choice([1e-6, 1e-3, 1.0, 1e4, 1e9], size=k)
+        if t % 3 == 0:
+            sc[0], sc[-1] = 1.0, 1e9
+        for kind in ("geodesic", "hyperplane"):
+            if kind == "geodesic":
+                n = 2                      # reflections across geodesics exist in the plane only
+                ends = rng.normal(size=(k, 2, n)); ends /= np.linalg.norm(ends, axis=-1, keepdims=True)
+                data = np.concatenate([np.ones((k, 2, 1)), ends], axis=-1) * sc[:, None, None]
+                mk = lambda d: h.Geodesic(h.IdealPoint(d.copy()))
+            else:
+                n = 2 + t % 2
+                if k == n + 1:
+                    continue               # a square array of normals is read as one hyperplane's full data (known finding of C15, reported there)
+                while True:
+                    nv = rng.normal(size=(k, n + 1)); nv[:, 0] *= 0.3
+                    if np.all(spec_mink(nv) > 0.2):
+                        break
+                nv = nv / np.sqrt(spec_mink(nv))[:, None]
+                # the library classifies vectors with an absolute threshold (1e-8 on the square-norm) and refuses shorter normals loudly: not a unit-vs-composite question
+                data = nv * np.maximum(sc, 1e-3)[:, None]
+                mk = lambda d: h.Hyperplane(d.copy())
+            inp = {"kind": kind, "n": n, "scales": sc.tolist(), "data": data.tolist()}
+
+            def body():
+                comp = mk(data)
+                units = [mk(data[i]) for i in range(k)]
+                for op in ("reflection_across", "spacelike_complement"):
+                    if kind == "hyperplane" and op == "spacelike_complement":
+                        continue
+                    R = np.asarray(getattr(comp, op)().proj_data, dtype=float)
+                    for i, u in enumerate(units):
+                        Ri = np.asarray(getattr(u, op)().proj_data, dtype=float)
+                        a, b = R[i].reshape(-1), Ri.reshape(-1)
+                        a, b = a / np.linalg.norm(a), b / np.linalg.norm(b)
+                        if R[i].shape != Ri.shape or min(np.linalg.norm(a - b), np.linalg.norm(a + b)) > 1e-6:
+                            rep.fail("composite_equals_units", f"{op}: unit {i} (scale {sc[i]:g})", {**inp, "operation": op}); return
+            rep.attempt("composite_runs", inp, body)
+            rep.case(key=(t, kind), nontrivial=float(sc.max() / sc.min()) >= 1e6, sample=inp if (t, kind) == (0, "geodesic") else None)
+            if len(rep.failures) >= 3:
+                return
+
+
+def spec_mink(v):
+    return -v[..., 0] ** 2 + (v[..., 1:] ** 2).sum(axis=-1)
